@@ -143,7 +143,8 @@ class Ctx:
                 if k.get('status') == 'open' and k['key'] == finding_key:
                     self.known_hits.append((finding_key, k['what']))
                     return
-        if len(self.violations) < 25:
+        n_same = sum(1 for v in self.violations if v['no_input'] == bool(no_input))
+        if n_same < (10 if no_input else 25):
             self.violations.append({'kind': kind, 'detail': detail, 'no_input': bool(no_input)})
         self.count('violations:' + kind)
 
